@@ -95,6 +95,7 @@ type RunResult struct {
 	Unknowns   int
 	FeasQ      int
 	AssertQ    int
+	CacheHits  int
 	Solver     SolverStats
 	Fns        map[string]int
 	Wall       time.Duration
@@ -141,7 +142,7 @@ func (in *Interp) resetPath(prefix []Decision) {
 	in.curThread = 0
 	in.stack = in.stack[:0]
 	in.tags = nil
-	in.solver.Reset()
+	in.solver.asserted = 0
 }
 
 func (in *Interp) buildCase(h string, m map[string]uint64) ReplayCase {
@@ -361,7 +362,7 @@ func Explore(ld *Loaded, cfg *Config) *RunResult {
 					return
 				}
 				defer sv.Close()
-				in := &Interp{prog: ld.prog, ld: ld, tt: tt, solver: sv, cfg: cfg, maxSteps: cfg.MaxSteps}
+				in := &Interp{prog: ld.prog, ld: ld, tt: tt, solver: sv, cfg: cfg, maxSteps: cfg.MaxSteps, qcache: map[string]string{}, varCache: map[int][]int{}, varIDs: map[string]int{}}
 				for {
 					mu.Lock()
 					for len(work) == 0 && active > 0 && !stop {
@@ -433,6 +434,7 @@ func Explore(ld *Loaded, cfg *Config) *RunResult {
 				rr.Unknowns += in.unknowns
 				rr.FeasQ += in.stats.feasQ
 				rr.AssertQ += in.stats.assertQ
+				rr.CacheHits += in.stats.cacheHits
 				rr.Solver.Queries += sv.stats.Queries
 				rr.Solver.Sat += sv.stats.Sat
 				rr.Solver.Unsat += sv.stats.Unsat
